@@ -239,6 +239,9 @@ func chunk(i, c int) []byte {
 	return []byte{base + 3, base + 4}
 }
 
+// bs renders bytes readably in evidence ("[6 7 8]").
+func bs(b []byte) string { return fmt.Sprint(b) }
+
 const readBuf = 4
 
 func readAll(rc io.Reader) ([]byte, error) {
@@ -325,7 +328,7 @@ func (rn *runner) run(h []op, label string, mode vfs.Mode) *runResult {
 		case absent:
 			if ob.openErr == nil {
 				violate(i, what, "data-visible-without-successful-commit", cause("Open-succeeds-on-absent-entry"),
-					map[string]interface{}{"got_bytes": ob.got, "read_err": fmt.Sprint(ob.readErr)})
+					map[string]interface{}{"got_bytes": bs(ob.got), "read_err": fmt.Sprint(ob.readErr)})
 			}
 		case wild:
 		case present, maybe:
@@ -339,24 +342,24 @@ func (rn *runner) run(h []op, label string, mode vfs.Mode) *runResult {
 					return
 				}
 				violate(i, what, "committed-data-not-returned", cause("Open-error-without-any-failure"),
-					map[string]interface{}{"open_err": ob.openErr.Error(), "committed": e.data, "offset": off})
+					map[string]interface{}{"open_err": ob.openErr.Error(), "committed": bs(e.data), "offset": off})
 				return
 			}
 			if ob.readErr != nil {
 				if !faulty {
 					violate(i, what, "committed-data-not-returned", cause("read-error-without-any-failure"),
-						map[string]interface{}{"read_err": ob.readErr.Error(), "committed": e.data, "offset": off})
+						map[string]interface{}{"read_err": ob.readErr.Error(), "committed": bs(e.data), "offset": off})
 					return
 				}
 				if !bytes.HasPrefix(want, ob.got) {
 					violate(i, what, "wrong-bytes", cause("bytes-before-read-error"),
-						map[string]interface{}{"got": ob.got, "want_prefix_of": want, "committed": e.data, "offset": off})
+						map[string]interface{}{"got": bs(ob.got), "want_prefix_of": bs(want), "committed": bs(e.data), "offset": off})
 				}
 				return
 			}
 			if !bytes.Equal(want, ob.got) {
 				violate(i, what, "wrong-bytes", cause("Open-without-any-failure"),
-					map[string]interface{}{"got": ob.got, "want": want, "committed": e.data, "offset": off})
+					map[string]interface{}{"got": bs(ob.got), "want": bs(want), "committed": bs(e.data), "offset": off})
 			}
 		}
 	}
@@ -384,7 +387,7 @@ func (rn *runner) run(h []op, label string, mode vfs.Mode) *runResult {
 					return
 				}
 				violate(i, what, "committed-data-not-returned", cause("Stat-error-without-any-failure"),
-					map[string]interface{}{"stat_err": err.Error(), "committed": e.data, "records": e.n})
+					map[string]interface{}{"stat_err": err.Error(), "committed": bs(e.data), "records": e.n})
 				return
 			}
 			if size != int64(len(e.data)) || recs != e.n {
@@ -619,11 +622,13 @@ func (ex *explorer) finish(vol *vfs.FS) {
 		c := ex.cands[sig]
 		rn := c.rn
 		rn.vol = vol
+		// labels do not contain the volume name, so they carry over to the root volume
 		for i := 0; i < 2; i++ {
 			again := rn.run(c.h, c.label, c.mode)
 			if again.viol == nil || again.viol.class != c.v.class || again.viol.cause != c.v.cause {
 				ev.Fatal("c15: violation %s not reproduced on re-execution of %q fault=%q", sig, histString(c.h), c.label)
 			}
+			c.v = again.viol // detail from the root volume: identical in every run
 		}
 		what := fmt.Sprintf("%s: %s (%s); history [%s]", rn.kind, c.v.class, c.v.cause, histString(c.h))
 		if c.label != "" {
